@@ -259,6 +259,7 @@ def draw_config(case, ch: Choices):
         s["call_headers"] = ch.pick("sub.ch", [None, {"X-Call": "k%d" % i}, {"X-Client": "override%d" % i}])
         s["start_delay"] = ch.pick("sub.delay", [0.0, 0.0, 0.01, 2.0])
         s["vars"] = ch.draw("sub.vars", 6)
+        s["lib_headers_kw"] = p.get("mode") != "enum" and ch.chance("sub.lib_headers_kw", 1, 6)
         # the consumer may leave early (break out of the async for / never start it) and close the generator: nothing is
         # asserted about that subscription beyond what happened before it left, but the other subscriptions on the same
         # client object keep their full oracle
@@ -314,6 +315,9 @@ def make_call(mods, variant, sub, client):
     headers = dict(sub["call_headers"] or {})
     headers["X-Sim-Sub"] = str(sub["index"])
     kw["extra_headers"] = headers
+    if sub.get("lib_headers_kw"):
+        # the caller also uses the websockets library's own keyword: the configured and per-call headers must still be sent
+        kw["additional_headers"] = {"X-Lib-Keyword": "1"}
     if via == "gen_counter":
         from_ = [pkg.UNSET, None, 0, 7, 41, -3][v]
         it = client.counter(from_=from_, **kw)
